@@ -115,6 +115,10 @@ func ReqID(label string) graphsync.RequestID {
 }
 
 func shortReq(id graphsync.RequestID) string {
+	if b := id.Bytes(); len(b) != 16 {
+		// not a valid identifier (String would panic): name it by its bytes
+		return fmt.Sprintf("bad%d:%x", len(b), b)
+	}
 	s := id.String()
 	if len(s) > 6 {
 		return s[:6]
